@@ -2,7 +2,7 @@
 # tools/seedtest.sh <ID> [tier] [extra check args]: confirm a sub-agent's seeded change in its scratch worktree, then run
 # ./check <ID> against /repo with the change applied, and undo it straight afterwards.
 ID=$1; TIER=${2:-quick}; shift; shift
-WT=/tmp/mut_$ID
+WT=/tmp/${SEEDPFX:-mut}_$ID
 cd $WT || exit 9
 echo "== patch applies to a clean /repo checkout?"
 git -C /repo apply --check $WT/patch.diff && echo yes || { echo NO; exit 9; }
